@@ -24,7 +24,11 @@ Inductive mult :=
 Inductive kind :=
 | KPrim (t : ptype)          (* any primitive but Enumeration *)
 | KEnum (e : string)         (* Enumeration over the named enum of kmip.core.enums *)
-| KStruct (c : string).      (* nested structure class *)
+| KStruct (c : string)       (* nested structure class *)
+| KTagged (t : string).      (* KMIP 2.0 "any attribute": tag and kind of the element are looked up, by the tag found
+                                on the stream / carried by the value, in the version-ranged table t of the environment *)
+
+Definition is_tagged (k : kind) : bool := match k with KTagged _ => true | _ => false end.
 
 (* dispatch key: the single primitive value of an earlier item of the same structure (ByField), or the
    TTLV type byte of the item that comes next on the stream (ByNextType: `is_type_next`) *)
@@ -38,7 +42,23 @@ Record item := { i_tag : Z; i_kind : kind; i_lo : Z; i_hi : Z; i_mult : mult; i_
    length field is not used and nothing is checked after the last item (RequestMessage / ResponseMessage) *)
 Record cls := { c_name : string; c_rd : list item; c_wr : list item; c_oversize_check : bool; c_substream : bool }.
 
-Record env := { e_classes : list cls; e_enums : list (string * list Z) }.
+(* a row of a tag table: tag, kind of the element, version range lo <= v < hi (enums.is_attribute) *)
+Definition trow := (Z * kind * Z * Z)%type.
+Record env := { e_classes : list cls; e_enums : list (string * list Z); e_tables : list (string * list trow) }.
+
+Definition find_table (E : env) (t : string) : list trow :=
+  match find (fun p => String.eqb (fst p) t) (e_tables E) with
+  | Some (_, rows) => rows
+  | None => []
+  end.
+Definition row_tag (r : trow) : Z := fst (fst (fst r)).
+Definition row_kind (r : trow) : kind := snd (fst (fst r)).
+Definition row_active (v : Z) (r : trow) : bool := (snd (fst r) <=? v) && (v <? snd r).
+Definition find_row (E : env) (v : Z) (t : string) (tag : Z) : option kind :=
+  match find (fun r => row_tag r =? tag) (filter (row_active v) (find_table E t)) with
+  | Some r => Some (row_kind r)
+  | None => None
+  end.
 
 Definition find_cls (E : env) (c : string) : option cls :=
   find (fun k => String.eqb (c_name k) c) (e_classes E).
@@ -55,7 +75,8 @@ Definition active (v : Z) (it : item) : bool := (i_lo it <=? v) && (v <? i_hi it
    active item of its class (in order) the list of its occurrences. *)
 Inductive value :=
 | VP (p : pval)
-| VS (fields : list (list value)).
+| VS (fields : list (list value))
+| VT (tag : Z) (x : value).          (* element of an any-attribute item: the value remembers its tag *)
 
 (* ------------------------------------------------------------------ dispatch *)
 
@@ -68,8 +89,8 @@ Definition key_of (pre : list (list value)) (ix : nat) : option pval :=
 Inductive resolved := RItem (it : item) | RSkip | RFail.
 
 (* TTLV type code of a value *)
-Definition tyc (x : value) : Z :=
-  match x with VP p => type_code (ptype_of p) | VS _ => STRUCT_CODE end.
+Fixpoint tyc (x : value) : Z :=
+  match x with VP p => type_code (ptype_of p) | VS _ => STRUCT_CODE | VT _ y => tyc y end.
 
 (* `pre` = the fields of the items before this one (already written / already read) *)
 Definition key_w (pre : list (list value)) (src : bsrc) (f : list value) : option pval :=
@@ -199,6 +220,11 @@ Fixpoint wr (fuel : nat) (tag : Z) (k : kind) (x : value) {struct fuel} : option
               | Some body => with_hdr tag STRUCT_CODE (zlen body) body
               end
           end
+      | KTagged t, VT tg y =>
+          match find_row E v t tg with
+          | Some k' => if is_tagged k' then None else wr f tg k' y
+          | None => None
+          end
       | _, _ => None
       end
   end.
@@ -241,6 +267,11 @@ Fixpoint wfv (fuel : nat) (k : kind) (x : value) {struct fuel} : bool :=
           | None => false
           | Some k => wf_items E v (wfv f) [] (filter (active v) (c_wr k)) fields
           end
+      | KTagged t, VT tg y =>
+          match find_row E v t tg with
+          | Some k' => negb (is_tagged k') && wfv f k' y
+          | None => false
+          end
       | _, _ => false
       end
   end.
@@ -249,16 +280,16 @@ End WfValue.
 (* ------------------------------------------------------------------ reader *)
 
 (* `while is_tag_next(tag, stream): read one` - lfuel bounds the number of turns *)
-Fixpoint rd_many (rd1 : bytes -> option (value * bytes)) (tag : Z) (lfuel : nat) (bs : bytes)
+Fixpoint rd_many (rd1 : bytes -> option (value * bytes)) (nxt : bytes -> bool) (lfuel : nat) (bs : bytes)
   : option (list value * bytes) :=
   match lfuel with
   | O => None
   | S lf =>
-      if is_tag_next tag bs then
+      if nxt bs then
         match rd1 bs with
         | None => None
         | Some (x, r) =>
-            match rd_many rd1 tag lf r with
+            match rd_many rd1 nxt lf r with
             | None => None
             | Some (xs, r') => Some (x :: xs, r')
             end
@@ -283,20 +314,31 @@ Fixpoint rd_counted (rd1 : bytes -> option (value * bytes)) (fuel : nat) (n : Z)
       end
   end.
 
-Definition rd_field (rd1 : bytes -> option (value * bytes)) (it : item) (cnt : option Z) (bs : bytes)
+(* "is the item next on the stream?": its tag for an ordinary item; any known tag for an any-attribute item *)
+Definition next_ok (E : env) (it : item) (bs : bytes) : bool :=
+  match i_kind it with
+  | KTagged _ =>
+      match take_exact 3 bs with
+      | Some (tb, _) => enum_mem E "Tags" (be_dec tb)
+      | None => false
+      end
+  | _ => is_tag_next (i_tag it) bs
+  end.
+
+Definition rd_field (rd1 : bytes -> option (value * bytes)) (nxt : bytes -> bool) (it : item) (cnt : option Z) (bs : bytes)
   : option (list value * bytes) :=
   match i_mult it with
   | Req =>
-      if is_tag_next (i_tag it) bs then
+      if nxt bs then
         match rd1 bs with Some (x, r) => Some ([x], r) | None => None end
       else None
   | Opt =>
-      if is_tag_next (i_tag it) bs then
+      if nxt bs then
         match rd1 bs with Some (x, r) => Some ([x], r) | None => None end
       else Some ([], bs)
-  | Many => rd_many rd1 (i_tag it) (S (List.length bs)) bs
+  | Many => rd_many rd1 nxt (S (List.length bs)) bs
   | Many1 =>
-      match rd_many rd1 (i_tag it) (S (List.length bs)) bs with
+      match rd_many rd1 nxt (S (List.length bs)) bs with
       | Some ([], _) => None
       | r => r
       end
@@ -320,7 +362,7 @@ Fixpoint rd_items (E : env) (v : Z) (rdk : Z -> kind -> bytes -> option (value *
           | Some (fs, r') => Some ([] :: fs, r')
           end
       | RItem it' =>
-          match rd_field (rdk (i_tag it') (i_kind it')) it' (item_count E v pre it) bs with
+          match rd_field (rdk (i_tag it') (i_kind it')) (next_ok E it') it' (item_count E v pre it) bs with
           | None => None
           | Some (f, r) =>
               match rd_items E v rdk (pre ++ [f]) rest r with
@@ -350,6 +392,21 @@ Fixpoint rd (fuel : nat) (tag : Z) (k : kind) (bs : bytes) {struct fuel} : optio
           match dec_prim (enum_mem E e) PEnum tag bs with
           | Some (p, r) => Some (VP p, r)
           | None => None
+          end
+      | KTagged t =>
+          match take_exact 3 bs with
+          | None => None
+          | Some (tb, _) =>
+              let tg := be_dec tb in
+              match find_row E v t tg with
+              | None => None
+              | Some k' =>
+                  if is_tagged k' then None else
+                  match rd f tg k' bs with
+                  | Some (y, r) => Some (VT tg y, r)
+                  | None => None
+                  end
+              end
           end
       | KStruct c =>
           match find_cls E c with
@@ -393,6 +450,7 @@ Definition kind_eqb (a b : kind) : bool :=
   | KPrim s, KPrim t => ptype_eqb s t
   | KEnum s, KEnum t => String.eqb s t
   | KStruct s, KStruct t => String.eqb s t
+  | KTagged s, KTagged t => String.eqb s t
   | _, _ => false
   end.
 
@@ -433,44 +491,80 @@ Definition kind_ok (E : env) (k : kind) : bool :=
   | KPrim t => negb (ptype_eqb t PEnum)
   | KEnum e => match find (fun p => String.eqb (fst p) e) (e_enums E) with Some _ => true | None => false end
   | KStruct c => match find_cls E c with Some _ => true | None => false end
+  | KTagged t => true
   end.
 
+
 (* the tags an item can appear with *)
-Definition tags_of_item (it : item) : list Z :=
+Definition tags_of_item (E : env) (it : item) : list Z :=
   match i_by it with
-  | None => [i_tag it]
+  | None => match i_kind it with
+            | KTagged t => map row_tag (find_table E t)
+            | _ => [i_tag it]
+            end
   | Some b => map (fun e => fst (snd e)) (by_table b)
   end.
 
 Definition memb (t : Z) (l : list Z) : bool := existsb (Z.eqb t) l.
 
 (* no tag of an item may be a tag of a later item: peeking is then unambiguous whatever the dispatch *)
-Fixpoint tags_disjointb (items : list item) : bool :=
+Fixpoint tags_disjointb (E : env) (items : list item) : bool :=
   match items with
   | [] => true
-  | it :: r => forallb (fun t => negb (memb t (List.concat (map tags_of_item r)))) (tags_of_item it) && tags_disjointb r
+  | it :: r => forallb (fun t => negb (memb t (List.concat (map (tags_of_item E) r)))) (tags_of_item E it)
+               && tags_disjointb E r
   end.
-
-Definition is_req (m : mult) : bool := match m with Req => true | _ => false end.
 
 (* multiplicities that look at the stream after their last occurrence *)
 Definition peeks (m : mult) : bool := match m with Req | Counted _ _ _ => false | _ => true end.
 
+(* an any-attribute item that peeks (optional / repeated) must be the last item of its class *)
+Fixpoint tagged_lastb (items : list item) : bool :=
+  match items with
+  | [] => true
+  | it :: r => (negb (is_tagged (i_kind it) && peeks (i_mult it)) || match r with [] => true | _ => false end)
+               && tagged_lastb r
+  end.
+
+(* rows of a tag table: legal tags that are members of the Tags enumeration, and plain kinds *)
+Definition row_ok (E : env) (r : trow) : bool :=
+  tag_ok (row_tag r) && enum_mem E "Tags" (row_tag r) && negb (is_tagged (row_kind r)) && kind_ok E (row_kind r).
+
+Definition is_req (m : mult) : bool := match m with Req => true | _ => false end.
+
+
 Definition item_ok (E : env) (it : item) : bool :=
   match i_by it with
-  | None => tag_ok (i_tag it) && kind_ok E (i_kind it)
-  | Some b => forallb (fun e => tag_ok (fst (snd e)) && kind_ok E (snd (snd e))) (by_table b)
+  | None =>
+      match i_kind it with
+      | KTagged t => forallb (row_ok E) (find_table E t)
+      | k => tag_ok (i_tag it) && kind_ok E k
+      end
+  | Some b => forallb (fun e => tag_ok (fst (snd e)) && kind_ok E (snd (snd e)) && negb (is_tagged (snd (snd e)))) (by_table b)
+              && negb (is_tagged (i_kind it))
               && match by_src b with ByNextType => is_req (i_mult it) && negb (by_skip_if_absent b) | ByField _ => true end
   end.
 
 (* reader and writer schemas agree item by item; tags are legal; under every version the tags an
    active item of a class can take are disjoint from those of the items after it; every referenced
-   class / enum exists *)
+   class / enum exists; a class read from the enclosing stream has no peeking item; a peeking
+   any-attribute item is the last item of a class that has its own sub-stream *)
 Definition cls_ok (E : env) (k : cls) : bool :=
   items_eqb (c_rd k) (c_wr k)
   && forallb (item_ok E) (c_rd k)
-  && forallb (fun v => tags_disjointb (filter (active v) (c_rd k))) VERSIONS
-  && (c_substream k || forallb (fun it => negb (peeks (i_mult it))) (c_rd k)).
+  && forallb (fun v => tags_disjointb E (filter (active v) (c_rd k))) VERSIONS
+  && (c_substream k || forallb (fun it => negb (peeks (i_mult it))) (c_rd k))
+  && tagged_lastb (c_rd k).
 
 Definition env_ok (E : env) : bool :=
-  forallb (cls_ok E) (e_classes E).
+  forallb (cls_ok E) (e_classes E)
+  && forallb (fun p => forallb (row_ok E) (snd p)) (e_tables E).
+
+(* the tags an element of kind k (written under item tag `tag`) can start with *)
+Definition ktags (E : env) (tag : Z) (k : kind) : list Z :=
+  match k with KTagged t => map row_tag (find_table E t) | _ => [tag] end.
+(* the tag an encoded element starts with *)
+Definition etag (tag : Z) (k : kind) (x : value) : Z :=
+  match k, x with KTagged _, VT t _ => t | _, _ => tag end.
+(* the tag parameter matters only for kinds that use it *)
+Definition tag_ok' (tag : Z) (k : kind) : bool := is_tagged k || tag_ok tag.
